@@ -60,7 +60,7 @@ DocIn(b, i) == b[CHOOSE k \in DOMAIN b : b[k].id = i].doc
 BadDoc(doc) == \E f \in DOMAIN doc : doc[f].bad = 1
 
 InsertValid(b) ==
-  /\ \A j, k \in DOMAIN b : j # k => b[j].id # b[k].id
+  /\ Cardinality(BIds(b)) = Len(b)    \* no id twice (linear; TLC unfolds a quantifier in an action recursively)
   /\ BIds(b) \cap DOMAIN pts = {}
   /\ \A k \in DOMAIN b : ~BadDoc(b[k].doc)
 
